@@ -139,6 +139,12 @@ func genCase(t *rapid.T) Case {
 		if strings.HasPrefix(c.A.Kind, "pctl-") && rapid.IntRange(0, 3).Draw(t, "pctltwin") > 0 {
 			b.Kind = rapid.SampledFrom([]string{"pctl-explicit", "pctl-default", "pctl-low"}).Draw(t, "pctlkind")
 		}
+		// the same function with another literal argument: whatever the function object keeps between calls is shared
+		reTwin := false
+		if strings.HasPrefix(c.A.Kind, "regexp-") && rapid.IntRange(0, 3).Draw(t, "retwin") > 0 {
+			b.Kind = map[string]string{"regexp-digits": "regexp-alpha", "regexp-alpha": "regexp-digits"}[c.A.Kind]
+			reTwin = true
+		}
 		b.Sync = syncable(b.Kind) && rapid.Bool().Draw(t, "syncB")
 		c.B = &b
 		na, nb := len(c.A.Rows), len(b.Rows)
@@ -155,6 +161,9 @@ func genCase(t *rapid.T) Case {
 		c.Concurrent = rapid.IntRange(0, 2).Draw(t, "conc") == 0
 		if c.Concurrent {
 			c.Repeat = rapid.SampledFrom([]int{1, 1, 8, 30}).Draw(t, "repeat")
+		}
+		if reTwin && rapid.IntRange(0, 3).Draw(t, "retwinconc") > 0 {
+			c.Concurrent, c.Repeat = true, 30
 		}
 	}
 	return c
